@@ -511,10 +511,12 @@ def check_stream_class(chk, db, rect, kind, rule, rule_status):
                         why.append('ignore(n) not followed by a comparison of gcount() with n on the success path')
                 elif not e.in_loop and need is not None and n != need:
                     why.append('%s() moves %r bytes, the caller asked for %r' % (e.name, n, need))
-            if success and not moving and need is not None and not (need.is_const() and need.const_value() == 0):
-                # nothing moved: only acceptable when the request was empty (loop not entered)
+            if (success or via_helper) and not moving and need is not None and not (need.is_const() and need.const_value() == 0):
+                # nothing moved through the stream's own observable operations: only acceptable when the request was empty (loop not
+                # entered).  Bytes pushed some other way (a stream-buffer iterator, the rdbuf) do not set the stream state on failure
                 if not any(isinstance(c, Cmp) for c, s_ in p.conds):
-                    why.append('reports success without moving any byte')
+                    why.append('reports %s without any observable transfer on the stream (no put / write / read / get / ignore on this path)' % (
+                        'success' if success else 'the stream state'))
         chk.decide(not why, rule, where, '%s: %s' % (label, '; '.join(sorted(set(why))) if why else
                                                        'observable stream operations only; status taken from the stream state after the transfer'),
                    function=label)
